@@ -9,9 +9,15 @@ Inductive report := RAll | RFields | RRecords.
 Record vflags := { vf_all : bool; vf_fields : bool; vf_ascii : bool; vf_tc : option bool; vf_eps : option Z }.
 Record vparams := { vp_report : report; vp_ascii : bool; vp_tc : option bool; vp_eps : option Z }.
 
-Definition verify_params (f : vflags) : vparams :=
-  {| vp_report := if vf_all f then RAll else if vf_fields f then RFields else RAll;
-     vp_ascii := vf_ascii f; vp_tc := vf_tc f; vp_eps := vf_eps f |}.
+(* None = the command exits with status 1 (--all and --fields contradict each other) *)
+Definition verify_params (f : vflags) : option vparams :=
+  if vf_all f && vf_fields f then None
+  else Some {| vp_report := if vf_all f then RAll else if vf_fields f then RFields else RAll;
+               vp_ascii := vf_ascii f; vp_tc := vf_tc f; vp_eps := vf_eps f |}.
+
+(* tdda discover: -r / -R; None = exit status 1, Some inc_rex otherwise *)
+Definition discover_params (rex norex : bool) : option bool :=
+  if rex && norex then None else Some rex.
 
 Record dflags := {
   df_ascii : bool; df_tc : option bool; df_eps : option Z;
@@ -28,8 +34,9 @@ Record dparams := {
   dp_output_fields : option (list str)      (* None = keyword not passed *)
 }.
 
+(* --output-fields was given (with or without names) *)
 Definition nonempty_fields (o : option (list str)) : bool :=
-  match o with Some (_ :: _) => true | _ => false end.
+  match o with Some _ => true | None => false end.
 
 (* None = the command exits with status 1 *)
 Definition detect_params (f : dflags) : option dparams :=
@@ -54,8 +61,11 @@ Definition cli_entry (s : sexp) : sexp :=
   | 0 =>
     let f := {| vf_all := sx_bool (sx_nth 1 s); vf_fields := sx_bool (sx_nth 2 s); vf_ascii := sx_bool (sx_nth 3 s);
                 vf_tc := sx_ob (sx_nth 4 s); vf_eps := sx_opt sx_Z (sx_nth 5 s) |} in
-    let p := verify_params f in
-    L [of_report (vp_report p); of_bool (vp_ascii p); of_ob (vp_tc p); of_opt A (vp_eps p)]
+    match verify_params f with
+    | None => L []
+    | Some p => L [L [of_report (vp_report p); of_bool (vp_ascii p); of_ob (vp_tc p); of_opt A (vp_eps p)]]
+    end
+  | 2 => of_opt of_bool (discover_params (sx_bool (sx_nth 1 s)) (sx_bool (sx_nth 2 s)))
   | _ =>
     let f := {| df_ascii := sx_bool (sx_nth 1 s); df_tc := sx_ob (sx_nth 2 s); df_eps := sx_opt sx_Z (sx_nth 3 s);
                 df_write_all := sx_bool (sx_nth 4 s); df_per_constraint := sx_bool (sx_nth 5 s);
@@ -99,8 +109,19 @@ Proof.
   intro H. inversion H; subst; clear H. cbn. repeat split; reflexivity.
 Qed.
 
-Theorem verify_translation_proof f :
-  vp_report (verify_params f) = (if vf_all f then RAll else if vf_fields f then RFields else RAll) /\
-  vp_ascii (verify_params f) = vf_ascii f /\ vp_tc (verify_params f) = vf_tc f /\
-  vp_eps (verify_params f) = vf_eps f.
-Proof. repeat split; reflexivity. Qed.
+Theorem verify_translation_proof f p : verify_params f = Some p ->
+  vp_report p = (if vf_all f then RAll else if vf_fields f then RFields else RAll) /\
+  vp_ascii p = vf_ascii f /\ vp_tc p = vf_tc f /\ vp_eps p = vf_eps f.
+Proof. unfold verify_params. destruct (_ && _); [discriminate|]. intro H. inversion H; subst; clear H. cbn. repeat split; reflexivity. Qed.
+
+(* every pair of options that contradict each other ends the command with status 1, and nothing else does *)
+Theorem verify_contradiction_proof f : verify_params f = None <-> (vf_all f = true /\ vf_fields f = true).
+Proof. unfold verify_params. destruct (vf_all f), (vf_fields f); cbn; split; intro H; try discriminate; auto; destruct H; discriminate. Qed.
+
+Theorem discover_contradiction_proof rex norex :
+  (discover_params rex norex = None <-> (rex = true /\ norex = true)) /\
+  (forall b, discover_params rex norex = Some b -> b = rex).
+Proof.
+  unfold discover_params. destruct rex, norex; cbn; (split; [split; intro H; try discriminate; auto; destruct H; discriminate|]);
+    intros b H; inversion H; reflexivity.
+Qed.
